@@ -4,7 +4,8 @@
    installation flags I, heaps h and objects s (lists of any length). *)
 From Coq Require Import ZArith List Bool String.
 From TV Require Import Base.Prelude Model.C19_Settings Spec.C19_Domain
-                       Proofs.C19_Frame Proofs.C19_Examples Proofs.C19_Refuted.
+                       Proofs.C19_Frame Proofs.C19_Examples Proofs.C19_Refuted
+                       Proofs.C19_Pure Proofs.C19_Idem Proofs.C19_Facts Proofs.C19_Supported.
 Import ListNotations.
 Open Scope Z_scope.
 
@@ -42,3 +43,61 @@ Proof. exact frame_when_available. Qed.
 Example frame_hypotheses_satisfiable :
   wf ex_heap ex_settings = true /\ is_ok (snd (validate std_tables no_backends ex_heap ex_settings)) = true.
 Proof. vm_compute. split; reflexivity. Qed.
+
+(* ================= 2. "yields the same result when applied again to its own output" ========= *)
+(* Full statement: for every object that validates, validating the result succeeds and gives an object
+   with the same observable contents (the second call allocates new lists again, so equality is on the
+   view = contents of every list attribute + every scalar, not on locations). *)
+Definition validate_idempotent_statement : Prop :=
+  forall T I h s h1 s1, wf h s = true -> validate T I h s = (h1, Ok s1) ->
+    exists h2 s2, validate T I h1 s1 = (h2, Ok s2) /\ view h2 s2 = view h1 s1.
+
+(* Proved part.  Missing for the full statement: objects in which ANOTHER attribute is bound to the very
+   list object of cipherImplementations (then the in-place filtering of finding F2 also shrinks that
+   attribute between the two calls; for arbitrary tables T the second call can then fail). *)
+Theorem validate_idempotent_partial :
+  forall T I h s h1 s1, wf h s = true -> impl_unaliased s -> validate T I h s = (h1, Ok s1) ->
+    exists h2 s2, validate T I h1 s1 = (h2, Ok s2) /\ view h2 s2 = view h1 s1.
+Proof. exact validate_idempotent_unaliased. Qed.
+
+(* the same on contents only: the pure function cvalidate (validate without the heap, proved to be what
+   the by-reference model computes on unaliased objects: Proofs.C19_Pure.validate_refines) is idempotent
+   for every 22-attribute content vector *)
+Theorem validate_contents_idempotent :
+  forall T I v c v', List.length v = NF -> cvalidate T I v c = Ok v' -> cvalidate T I v' c = Ok v'.
+Proof. exact cvalidate_idem. Qed.
+
+Example idempotent_hypotheses_satisfiable :
+  wf ex_heap ex_settings = true /\ impl_unaliased (with_scalars ex_settings ex_scalars_tls11) /\
+  is_ok (snd (validate std_tables no_backends ex_heap (with_scalars ex_settings ex_scalars_tls11))) = true.
+Proof.
+  split; [vm_compute; reflexivity|]. split; [apply unaliased_b_sound; vm_compute; reflexivity|vm_compute; reflexivity].
+Qed.
+
+(* ================= 3. "contains only algorithms the running installation supports" ============ *)
+(* supported_only T I (Spec/C19_Domain.v): every name of the result is in its table; no back-end the
+   installation lacks (I: M2Crypto, pycrypto), no 3DES without an implementation, no SHA-2/AEAD MAC when
+   maxVersion < TLS 1.2, no TLS 1.3 entry in `versions` when maxVersion < TLS 1.3.  Parametric in the
+   tables (brotli/zstd/ML-KEM/ML-DSA availability only changes the generated tables) and in I. *)
+Definition validated_supported_only_statement : Prop :=
+  forall T I h s h' s', wf h s = true -> validate T I h s = (h', Ok s') ->
+    supported_only T I (view h' s') = true.
+
+(* proved for objects where no other attribute shares the cipherImplementations list (same gap as 2.) *)
+Theorem validated_supported_only_partial :
+  forall T I h s h' s', wf h s = true -> impl_unaliased s -> validate T I h s = (h', Ok s') ->
+    supported_only T I (view h' s') = true.
+Proof. exact validate_supported_unaliased. Qed.
+
+Theorem validated_contents_supported_only :
+  forall T I v c v', List.length v = NF -> cvalidate T I v c = Ok v' -> supported_only T I (v', c) = true.
+Proof. exact cvalidate_supported. Qed.
+
+(* the by-reference model computes cvalidate (same outcome, same error class, same contents) *)
+Theorem validate_refines_contents :
+  forall T I h s, wf h s = true -> impl_unaliased s ->
+    match validate T I h s with
+    | (h', Ok s') => cvalidate T I (lists h s) (sc s) = Ok (lists h' s') /\ sc s' = sc s
+    | (h', Err e) => cvalidate T I (lists h s) (sc s) = Err e
+    end.
+Proof. exact validate_refines_contents_lemma. Qed.
